@@ -8,6 +8,7 @@ import (
 	"go/token"
 	"go/types"
 	"math/big"
+	"sort"
 	"strconv"
 	"strings"
 
@@ -568,6 +569,16 @@ func (ec *evalCtx) binary(x *CBin) (TV, error) {
 		if err != nil {
 			return TV{}, err
 		}
+		// short circuit on a literally decided left operand (did(call K #n) of a call site that does
+		// not exist is false: what is said about its result / arguments is then never evaluated)
+		switch {
+		case x.Op == "&&" && a.S == "false":
+			return TV{T: tFalse, Ty: boolT}, nil
+		case x.Op == "||" && a.S == "true":
+			return TV{T: tTrue, Ty: boolT}, nil
+		case x.Op == "==>" && a.S == "false":
+			return TV{T: tTrue, Ty: boolT}, nil
+		}
 		b, err := ec.evalBool(x.Y)
 		if err != nil {
 			return TV{}, err
@@ -1018,6 +1029,58 @@ func (ec *evalCtx) call(x *CCall) (TV, error) {
 				return TV{}, fmt.Errorf("isFresh needs a pointer, map or slice")
 			}
 			return TV{T: mk(SBool, ">", mk(SInt, "alloc_id", p), Term{"0", SInt}), Ty: types.Typ[types.Bool]}, nil
+		case "didCallWith":
+			// didCallWith("callee", i, v): some executed call of callee (any site) had argument i equal to v
+			if len(x.Args) != 3 {
+				return TV{}, fmt.Errorf("didCallWith(callee, argIndex, value)")
+			}
+			cs, ok1 := x.Args[0].(*CStrL)
+			ci, ok2 := x.Args[1].(*CInt)
+			if !ok1 || !ok2 {
+				return TV{}, fmt.Errorf("didCallWith needs a string literal callee and a literal argument index")
+			}
+			ai, _ := strconv.Atoi(ci.Text)
+			want, err := ec.eval(x.Args[2])
+			if err != nil {
+				return TV{}, err
+			}
+			fr := ec.fr
+			if fr == nil {
+				fr = ec.callerFr
+			}
+			var evs []*Event
+			for f := fr; f != nil; f = f.parent {
+				for _, e := range f.events {
+					if c.v.keyMatches(e.key, cs.Val) && ai < len(e.args) {
+						evs = append(evs, e)
+					}
+				}
+				for _, ch := range f.children {
+					for _, e := range ch.events {
+						if c.v.keyMatches(e.key, cs.Val) && ai < len(e.args) {
+							evs = append(evs, e)
+						}
+					}
+				}
+			}
+			sort.Slice(evs, func(i, j int) bool {
+				if evs[i].key != evs[j].key {
+					return evs[i].key < evs[j].key
+				}
+				return evs[i].ord < evs[j].ord
+			})
+			alts := []Term{}
+			for _, e := range evs {
+				a, b := ec.unify(e.args[ai], want)
+				if a.T.Sort != b.T.Sort {
+					continue
+				}
+				alts = append(alts, and(e.did, eq(a.T, b.T)))
+			}
+			if len(alts) == 0 {
+				return TV{T: tFalse, Ty: types.Typ[types.Bool]}, nil
+			}
+			return TV{T: or(alts...), Ty: types.Typ[types.Bool]}, nil
 		case "isNilIface":
 			v, err := ec.eval(x.Args[0])
 			if err != nil {
